@@ -146,7 +146,8 @@ Proof.
     repeat split.
   - pose proof (fl_alloc_cont_spec 2 _ n _ _ Wf ltac:(lia) Ec) as Hf. cbn beta iota in Hf.
     subst f'.
-    destruct ((maxPages a - a_end (data a)) mod 2 ^ 64 <? n) eqn:E2; [intros [= <- <- <-]; split; reflexivity|].
+    destruct ((0 <? maxPages a) && ((if a_end (data a) <? maxPages a then maxPages a - a_end (data a) else 0) <? n)) eqn:E2;
+      [intros [= <- <- <-]; split; reflexivity|].
     rewrite area_regions_one by lia. cbn [last].
     intros [= <- <- <-].
     cbn [data a_free a_end meta set_data set_meta tdata tx_stats tx_with ta_new t_allocated t_new t_freed rid rcount regions_ids flat_map].
@@ -264,7 +265,8 @@ Proof.
   destruct (data_avail a <? n); [intros [= <- <- <-]; repeat split; lia|].
   destruct (fl_alloc_cont false (a_free (data a)) n) as [[reg|] f'].
   - intros [= <- <- <-]. cbn. repeat split; lia.
-  - destruct ((maxPages a - a_end (data a)) mod 2 ^ 64 <? n); [intros [= <- <- <-]; repeat split; lia|].
+  - destruct ((0 <? maxPages a) && ((if a_end (data a) <? maxPages a then maxPages a - a_end (data a) else 0) <? n));
+      [intros [= <- <- <-]; repeat split; lia|].
     intros [= <- <- <-].
     cbn [data meta a_end a_free set_data set_meta tx_stats tx_with ovf pct metaTotal].
     destruct (a_end (meta a) <? a_end (data a) + n) eqn:E2; repeat split; lia.
